@@ -100,6 +100,21 @@ func beN(b []byte) uint64 {
 func runReader(st *state, line, expect string) (string, string) {
 	f := strings.Fields(line)
 	buf := unhx(f[1])
+	// the decoders read from the first n octets of a pooled receive buffer: two cases in three give the reader a
+	// slice with spare capacity (1..16 octets, or a 1500-octet buffer) whose tail holds the octets of an earlier datagram
+	switch spare := len(line) % 3; spare {
+	case 1, 2:
+		extra := 1 + len(line)%16
+		if spare == 2 && len(buf) < 1500 {
+			extra = 1500 - len(buf)
+		}
+		back := make([]byte, len(buf)+extra)
+		copy(back, buf)
+		for i := len(buf); i < len(back); i++ {
+			back[i] = 0xA5
+		}
+		buf = back[:len(buf)]
+	}
 	orig := append([]byte{}, buf...)
 	var ops []string
 	if len(f) > 2 {
